@@ -7,6 +7,7 @@ package chain
 
 import (
 	"fmt"
+	"os"
 	"regexp"
 	"strings"
 	"testing"
@@ -142,6 +143,11 @@ func runHistoryProp(t *testing.T, property, name, rule string, prof *Profile, mk
 			}
 			for k, n := range rs.ByKindFail {
 				st.Count("rejected/"+k, int64(n))
+			}
+			if os.Getenv("VERIF_REASONS") == "1" {
+				for k, n := range rs.Reasons {
+					st.Count("why/"+k, int64(n))
+				}
 			}
 			if v != nil {
 				return v
